@@ -278,6 +278,29 @@ def expected_accessors(d):
     return out
 
 
+def decided_by_evaluation(res, table, name, what):
+    """True when the operations executed for declaration `name` cover the whole input space of the items `what` describes:
+    `consts` – ZERO / DEFAULT / Default::default() / new() have no inputs; `enum` – both conversions of an enum of at most
+    12 bits are executed on all 2^N raw values and on every variant.  (Their results are compared with the reference
+    semantics like every other operation; a wrong one is reported there.)"""
+    d = table.get(name)
+    if d is None or not res.get("profiles"):
+        return False
+    for prof in res["profiles"]:
+        kinds = res.get("op_counts", {}).get(prof, {}).get(name, {})
+        if what == "consts":
+            need = ["zero"] + (["default", "defaulttrait", "new"] if d.get("default") else [])
+            if any(kinds.get(k, 0) < 1 for k in need):
+                return False
+        elif what == "enum":
+            bits = d.get("size")
+            if not isinstance(bits, int) or bits > 12 or kinds.get("enew", 0) < 2 ** bits or kinds.get("eraw", 0) < 1:
+                return False
+        else:
+            return False
+    return True
+
+
 def evaluate(prop, res):
     """returns (findings, coverage dict)"""
     decls = res["decls"]
@@ -373,7 +396,9 @@ def evaluate(prop, res):
             name = w[1] if len(w) > 1 else ""
             if tag == "RECEIVER-CHANGED" and prop == "C02":
                 add("violation", "with_ modified its receiver", {"line": fl, "declaration": name})
-            elif tag == "REWRAP-DIFF" and prop == "C11":
+            elif tag == "REWRAP-DIFF" and prop in ("C11", "C12"):
+                # C12: "all getters observe exactly that state" – a getter that tells a value from new_with_raw_value(raw_value())
+                # observes something other than the last-write-wins register
                 add("violation", "value and its re-wrapped copy differ through a getter", {"line": fl, "declaration": name})
             elif tag == "HIDDEN-STATE" and prop == "C11":
                 add("violation", "an operation created state above bit N-1 of the storage", {"line": fl, "declaration": name})
@@ -478,6 +503,12 @@ def evaluate(prop, res):
     if want_what:
         cov["structure_equal"] = sc.get("equal", 0)
         for (name, what, real, want) in [tuple(x) for x in sc.get("differ", [])]:
+            if what == want_what and str(real).startswith("unexpected shape") and decided_by_evaluation(res, table, name, what):
+                # the item is written in a form the structure matcher does not know, but it has no inputs (constants) or all of
+                # its inputs were executed (conversions of an enum of at most 12 bits): the executed operations – compared
+                # with the reference semantics in the operations loop above – decide the property for this declaration
+                cov["structure_decided_by_complete_evaluation"] += 1
+                continue
             if what == want_what or what == "dump":
                 add("correspondence", "the %s part of the expansion differs from what the model generates" % what,
                     {"declaration": name, "real": real, "model": want})
